@@ -67,6 +67,7 @@ def _(c):
         return p
     c.summary(summary)
     c.use_modular()
+    c.force_modular = True
 
 
 @contract("GcodeParser.GcodeParser.parameterItems")
@@ -78,9 +79,18 @@ def _(c):
         if f.a.source is not None:
             raise Unsupported("parameterItems(source) is not part of the handler-side view")
         src = f.self.fields.get("_src")
+        if isinstance(src, str):
+            # concrete command (engine self-check): read the words with the independent RS274 reader
+            from spec import rs274
+            from pyvc.values import PyList
+            code, params = rs274.command_of(rs274.words(src))
+            out = PyList([(l, v) for (l, v) in params if l != "?"])
+            out.fresh = True
+            return out
         z = sstr_to_z3(src)
         if z is None:
             raise Unsupported("parameterItems of a formatted command")
         return gitems.items_of(z)
     c.summary(summary)
     c.use_modular()
+    c.force_modular = True
